@@ -198,6 +198,20 @@ ENTRIES = {
         note="Trusted: Coq kernel, extraction, driver, harness. Observation values cross as float64 bit patterns. reveal_plates takes one screen and "
              "uses that screen's own plate ids. set_observed is outside the atomicity clause (it performs no plate check). Independent of sample "
              "and treatment ids."),
+    "C19": dict(
+        text="Coq model of nextflow/scripts/batchie.py (examine incl. its quirks, run_next_*, pipeline publications in adversarial order, crashes "
+             "after any filesystem action or publication, operator deleting the named directory); resume correctness proved for EVERY crash "
+             "schedule (any length), batch size, plate count and both modes by an invariant (completed steps are a lexicographic prefix of the "
+             "crash-free run with the same launches and selections; at most one incomplete directory at the next index; no completed step deleted "
+             "or relaunched; no index skipped; inputs from the predecessor), under 'marker published last' and the repaired examine (or batch size "
+             "1); both hypotheses shown necessary by vm_compute witnesses. The real script is driven in-process against a fake nextflow over all "
+             "single and (thorough) exhaustive/sampled pairs of crash points, launch log and final tree compared with the model and with the "
+             "crash-free run.",
+        note="No nextflow engine exists in the sandbox: workflows are represented by harness/fake_nextflow (publishes the files the script globs "
+             "for, in a commanded order, crashing on command); nextflow's own resume cache and asynchronous publishDir are outside the model. The "
+             "empty-iteration-directory defect found here was repaired in /repo (fix: 77b0dc7; witness in corpus/C19). KNOWN FINDING "
+             "prospective-marker-before-selection (KNOWN_FINDINGS.json): not repaired because a repair changes what counts as a completed step "
+             "and cannot be validated without nextflow. Trusted: Coq kernel, extraction, driver, harness, the fake."),
 }
 PENDING = "check not built yet in this round; planned in DESIGN.md section 5 (no property is inapplicable in principle)"
 NOT_APPLICABLE = {p: PENDING for p in ["C%02d" % i for i in range(1, 21)] if p not in ENTRIES}
